@@ -37,14 +37,20 @@ func init() {
 }
 
 type statsReporter struct {
-	n  int
-	cb func(n int)
+	n       int
+	bytes   uint64
+	cb      func(n int)
+	cbBytes func(total uint64)
 }
 
 func (s *statsReporter) ReportBytesWritten(b uint64) {
 	s.n++
+	s.bytes += b
 	if s.cb != nil {
 		s.cb(s.n)
+	}
+	if s.cbBytes != nil {
+		s.cbBytes(s.bytes)
 	}
 }
 
